@@ -186,6 +186,12 @@ pub(crate) struct SolverState {
 
     /// Activity score per package.
     name_activity: Vec<f32>,
+
+    /// The decision level at which the current call to `run_sat` started. The
+    /// decisions up to and including this level were made while solving for
+    /// the root requirements (or for previous soft requirements) and are
+    /// never undone while solving for a soft requirement.
+    starting_level: u32,
 }
 
 impl<D: DependencyProvider> Solver<D, NowOrNeverRuntime> {
@@ -395,6 +401,7 @@ impl<D: DependencyProvider, RT: AsyncRuntime> Solver<D, RT> {
             .map(|decision| self.state.decision_tracker.level(decision.variable))
             .unwrap_or(0);
 
+        self.state.starting_level = starting_level;
         let mut level = starting_level;
 
         loop {
@@ -486,7 +493,17 @@ impl<D: DependencyProvider, RT: AsyncRuntime> Solver<D, RT> {
             // Enter the solver loop, return immediately if no new assignments have been
             // made.
             tracing::trace!("Level {}: Resolving dependencies", level);
-            level = self.resolve_dependencies(level)?;
+            level = match self.resolve_dependencies(level) {
+                Err(UnsolvableOrCancelled::Unsolvable(_)) if starting_level > 0 => {
+                    // The soft requirement conflicts with the decisions that were made before.
+                    return self.run_sat_process_unsolvable(
+                        root_solvable,
+                        starting_level,
+                        ClauseId::install_root(),
+                    );
+                }
+                result => result?,
+            };
             tracing::trace!("Level {}: Done resolving dependencies", level);
 
             // We have a partial solution. E.g. there is a solution that satisfies all the
@@ -959,6 +976,13 @@ impl<D: DependencyProvider, RT: AsyncRuntime> Solver<D, RT> {
             );
         }
 
+        if level > 1 && level <= self.state.starting_level + 1 {
+            // A conflict on the level at which a soft requirement was installed: the soft
+            // requirement cannot be installed together with the existing decisions. The caller
+            // (`run_sat`) undoes the attempt; no conflict needs to be reported.
+            return Err(Conflict::default());
+        }
+
         if level == 1 {
             for decision in self.state.decision_tracker.stack() {
                 let clause_id = decision.derived_from;
@@ -1424,8 +1448,9 @@ impl<D: DependencyProvider, RT: AsyncRuntime> Solver<D, RT> {
             );
         }
 
-        // Should revert at most to the root level
-        let target_level = back_track_to.max(1);
+        // Should revert at most to the root level, or to the level at which the current soft
+        // requirement was installed: the decisions made before that must not be undone.
+        let target_level = back_track_to.max(self.state.starting_level + 1);
         self.state.decision_tracker.undo_until(target_level);
 
         self.decay_activity_scores();
